@@ -182,7 +182,8 @@ Definition bytes_case (t ut : ty) (cur : gval) (tk : token) (rest : list token) 
   | TBytes, VBytes s => Ok (GBytes false s, rest)
   | TByteArray n, VBytes s =>
       let old := bytes_of_gval cur in
-      Ok (GBytes false (firstn n s ++ skipn (length s) old), rest)
+      if Nat.ltb n (length s) then Err ETooMany
+      else Ok (GBytes false (firstn n s ++ skipn (length s) old), rest)
   | TAny, VBytes s => Ok (GAny (Some (TBytes, GBytes false s)), rest)
   | _, _ => Err (EMismatch (kind tk) (rk_of t))
   end.
@@ -832,7 +833,8 @@ Proof.
   intros Hut. pose proof (ty_depth_underlying t) as Hd. rewrite <- Hut in Hd. pose proof (ty_depth_pos t) as Hpos.
   unfold dispatch.
   destruct (kind tk =? KNaN). { unfold nan_case. destruct ut; discriminate. }
-  destruct (kind tk =? KBytes). { unfold bytes_case. destruct ut; try discriminate; destruct (val tk); discriminate. }
+  destruct (kind tk =? KBytes). { unfold bytes_case. destruct ut; try discriminate; destruct (val tk); try discriminate;
+      match goal with |- (if ?c then _ else _) <> _ => destruct c; discriminate end. }
   destruct (kind tk =? KArray).
   { unfold array_case. destruct ut; try discriminate; (apply bind_noof; [|discriminate]);
       (apply arr_loop_tot || apply slice_loop_tot); try lia; apply okrec_mu; intros t' <-; cbn [ty_depth] in *; lia. }
@@ -1492,10 +1494,15 @@ Lemma unm_bytes f t cur s rest : underlying t = TBytes ->
   unm pf (S f) o R t cur (T KBytes (VBytes s) :: rest) = Ok (GBytes false s, rest).
 Proof. intros Hut. step_rec f. rewrite Hut. reflexivity. Qed.
 
-Lemma unm_bytearray f t k cur s rest : underlying t = TByteArray k ->
+Lemma unm_bytearray f t k cur s rest : underlying t = TByteArray k -> (length s <= k)%nat ->
   unm pf (S f) o R t cur (T KBytes (VBytes s) :: rest) =
   Ok (GBytes false (firstn k s ++ skipn (length s) (bytes_of_gval cur)), rest).
-Proof. intros Hut. step_rec f. rewrite Hut. reflexivity. Qed.
+Proof.
+  intros Hut Hle. apply Nat.ltb_ge in Hle. step_rec f. rewrite Hut.
+  transitivity (if Nat.ltb k (length s) then @Err (gval * list token) ETooMany
+                else Ok (GBytes false (firstn k s ++ skipn (length s) (bytes_of_gval cur)), rest));
+    [reflexivity|rewrite Hle; reflexivity].
+Qed.
 
 Lemma unm_time f t cur s rest : underlying t = TTime -> valid_time_enc s = true ->
   unm pf (S f) o R t cur (T KString (VStr s) :: rest) = Ok (GTime s, rest).
@@ -1814,9 +1821,10 @@ Proof.
     cbn [marshal bind] in Hm; injection Hm as <-.
     + leaf_case Hs Hp Hf ltac:(apply unm_bytes; exact Hut).
     + leaf_case Hs Hp Hf ltac:(idtac).
-      rewrite (unm_bytearray pf o R _ _ _ _ _ _ Hut). cbn [normal].
       apply andb_true_iff in Hty. destruct Hty as [Hty _]. apply andb_true_iff in Hty. destruct Hty as [_ Hlen].
-      apply Nat.eqb_eq in Hlen. rewrite zero_underlying, Hut. cbn [zero bytes_of_gval].
+      apply Nat.eqb_eq in Hlen.
+      rewrite (unm_bytearray pf o R _ _ _ _ _ _ Hut) by (rewrite Hlen; apply Nat.le_refl). cbn [normal].
+      rewrite zero_underlying, Hut. cbn [zero bytes_of_gval].
       rewrite <- Hlen, firstn_all.
       assert (Hsk : forall k, skipn k (rep k 0) = []) by (induction k; [reflexivity|assumption]).
       rewrite Hsk, app_nil_r. reflexivity.
